@@ -18,10 +18,49 @@ def py_witnesses(prop):
     return bad
 
 
+def coqchk(prop):
+    """thorough tier: the compiled property file and everything it depends on is re-checked by Coq's independent
+    checker; `-o` prints the axioms, type-in-type constants, unsafe fixpoints and assumed-positive inductives the
+    whole context relies on - all four lists must be empty. The summary is added to the evidence file."""
+    import json, os, re, subprocess, time
+    t0 = time.time()
+    cmd = ['coqchk', '-o', '-silent', '-R', 'theories', 'SV', 'SV.Props.' + prop]
+    try:
+        r = subprocess.run(['timeout', '3000'] + cmd, cwd=common.COQ, capture_output=True, text=True)
+        out, code = r.stdout + r.stderr, r.returncode
+    except Exception as e:  # noqa
+        out, code = repr(e), 99
+    summary = out[out.find('CONTEXT SUMMARY'):] if 'CONTEXT SUMMARY' in out else out[-1500:]
+    lists = {}
+    for key, pat in (('axioms', r'\* Axioms:(.*?)(?=\n\* |\Z)'), ('type_in_type', r'relying on type-in-type:(.*?)(?=\n\* |\Z)'),
+                     ('unsafe_fixpoints', r'relying on unsafe \(co\)fixpoints:(.*?)(?=\n\* |\Z)'),
+                     ('assumed_positive', r'positivity is assumed:(.*?)(?=\n\* |\Z)')):
+        m = re.search(pat, summary, re.S)
+        lists[key] = None if m is None else [l.strip() for l in m.group(1).strip().split('\n') if l.strip() and l.strip() != '<none>']
+    ok = code == 0 and all(v == [] for v in lists.values())
+    rec = {'cmd': 'cd /verif/coq && ' + ' '.join(cmd), 'exit': code, 'ok': ok, 'wall_s': round(time.time() - t0, 1), **lists}
+    ev = os.path.join(common.EVIDENCE, prop + '.json')
+    try:
+        obj = json.load(open(ev))
+        obj.setdefault('coverage', {})['coqchk'] = rec
+        if not ok:
+            obj['violations'] = (obj.get('violations') or 0) + 1
+        json.dump(obj, open(ev, 'w'), indent=1, default=str)
+    except Exception:  # noqa
+        pass
+    if not ok:
+        common.Reporter(prop).violation('coqchk', {'kind': 'proof-obligation', 'what': 'coqchk -o does not accept the compiled development '
+                                                   'behind Props/%s.v with an empty list of axioms / unchecked constants' % prop,
+                                                   'record': rec, 'output': summary[-3000:]}, found_input=False)
+    return ok
+
+
 def run(prop, tier, seed, replay):
     rc = _run(prop, tier, seed, replay)
     if replay is None and py_witnesses(prop):
         rc = rc or 1
+    if replay is None and tier == 'thorough' and rc in (0, 1) and not coqchk(prop):
+        rc = 1
     return rc
 
 
